@@ -6,7 +6,9 @@ import sys
 from pathlib import Path
 from typing import NoReturn, List, Tuple
 
-PLAN_COMPONENT_REGEX = r"\d: ([\w+\s?-]+)\n"
+PLAN_COMPONENT_REGEX = (
+    r"^(?:step)?[ \t]*\d+:[ \t]+([\w+?-]+(?:[ \t]+[\w+?-]+)*)[ \t]*\r?$"
+)
 VALID_PLAN_FOUND_PATTERN = "ff: found legal plan as follows"
 NO_SOLUTION_OPTIONS = [
     "problem proven unsolvable.",
@@ -45,7 +47,14 @@ class MetricFFParser:
         :param planner_output: the file content with the possible action sequence.
         :return: the action sequence.
         """
-        matches = re.finditer(PLAN_COMPONENT_REGEX, planner_output, re.MULTILINE)
+        plan_start = planner_output.find(VALID_PLAN_FOUND_PATTERN)
+        if plan_start < 0:
+            return []
+
+        # The plan's steps are the numbered lines that follow the announcement of the plan.
+        matches = re.finditer(
+            PLAN_COMPONENT_REGEX, planner_output[plan_start:], re.MULTILINE
+        )
         plan_seq = []
         for match in matches:
             action_sequence = match.group(1)
